@@ -192,6 +192,130 @@ theorem visitKVs_plain_eq_asrep (w : Bool) : ∀ (kvs : KVs) (s : Sch),
         simp only [visit_plain_eq_asrep w v a h.1]
 end
 
+/-! ### header decoding -/
+
+theorem parsePrim_ne_panic (t : Ty) (raw : String) : parsePrim t raw ≠ .panic := by
+  unfold parsePrim
+  split
+  · simp
+  · cases t <;> simp <;> split <;> simp
+
+theorem consItem_of_not_val (x : J) (d : Dec) (h : ∀ v, d ≠ .val v) : consItem x d = d := by
+  cases d with
+  | val v => exact absurd rfl (h v)
+  | err => rfl
+  | nil => rfl
+  | panic => rfl
+
+theorem consItem_ne_panic (x : J) (d : Dec) (h : d ≠ .panic) : consItem x d ≠ .panic := by
+  cases d with
+  | val v => cases v <;> simp [consItem]
+  | err => simp [consItem]
+  | nil => simp [consItem]
+  | panic => exact absurd rfl h
+
+theorem parseArr_some_ne_panic (s : Sch) (l : List String) : parseArr (.some s) l ≠ .panic := by
+  induction l with
+  | nil => simp [parseArr]
+  | cons v r ih =>
+    unfold parseArr
+    cases hp : parsePrim s.core.ty v with
+    | val x => simpa [hp] using consItem_ne_panic x _ ih
+    | err => simp [hp]
+    | nil => simp [hp]
+    | panic => exact absurd hp (parsePrim_ne_panic _ _)
+
+theorem decodeObject_ne_panic (s : Sch) (ex : Bool) (raw : String) (c : Dec) (hc : c ≠ .panic) :
+    decodeObject s ex raw c ≠ .panic := by
+  unfold decodeObject
+  repeat' split
+  all_goals first | exact hc | simp
+
+theorem decodeObject_ne_nil (s : Sch) (ex : Bool) (raw : String) (c : Dec) (hc : c ≠ .nil) :
+    decodeObject s ex raw c ≠ .nil := by
+  unfold decodeObject
+  repeat' split
+  all_goals first | exact hc | simp
+
+theorem pairUp_none_iff_odd : ∀ (l : List String), pairUp l = none ↔ l.length % 2 = 1
+  | [] => by simp [pairUp]
+  | [_] => by simp [pairUp]
+  | k :: v :: r => by
+    have ih := pairUp_none_iff_odd r
+    simp only [pairUp, Option.map_eq_none_iff, ih, List.length_cons]
+    omega
+
+theorem lastVal_append_same (k v : String) : ∀ (ps : List (String × String)), lastVal k (ps ++ [(k, v)]) = some v
+  | [] => by simp [lastVal]
+  | (k', v') :: r => by simp [lastVal, lastVal_append_same k v r]
+
+theorem lookup_isSome_cons (k k' : String) (p : Sch) (r : Props) (h : (r.lookup k).isSome = true) :
+    ((Props.cons k' p r).lookup k).isSome = true := by
+  simp only [Props.lookup]; split <;> simp [h]
+
+/-- the declared loop only produces entries for declared names -/
+theorem buildDeclared_keys (pairs : List (String × String)) : ∀ (ps : Props) (seen : List String) (kvs : KVs),
+    buildDeclared pairs ps seen = some kvs → ∀ k, (kvs.get k).isSome = true → (ps.lookup k).isSome = true
+  | .nil, _, kvs, h, k, hk => by
+    simp only [buildDeclared, Option.some.injEq] at h
+    subst h; simp [KVs.get] at hk
+  | .cons k' p r, seen, kvs, h, k, hk => by
+    unfold buildDeclared at h
+    split at h
+    · exact lookup_isSome_cons k k' p r (buildDeclared_keys pairs r seen kvs h k hk)
+    · split at h
+      · rename_i x _
+        cases hb : buildDeclared pairs r (k' :: seen) with
+        | none => simp [hb] at h
+        | some kvs' =>
+          simp only [hb, Option.map_some, Option.some.injEq] at h
+          subst h
+          simp only [KVs.get] at hk
+          by_cases hkk : k = k'
+          · simp [Props.lookup, hkk]
+          · simp only [hkk, if_false] at hk
+            exact lookup_isSome_cons k k' p r (buildDeclared_keys pairs r _ kvs' hb k hk)
+      · exact lookup_isSome_cons k k' p r (buildDeclared_keys pairs r _ kvs h k hk)
+      · simp at h
+
+def JL.ofList : List J → JL
+  | [] => .nil
+  | x :: r => .cons x (JL.ofList r)
+
+/-- item by item, the texts parse (as primitives of type t) to the values -/
+inductive ItemsParse (t : Ty) : List String → List J → Prop
+  | nil : ItemsParse t [] []
+  | cons {v : String} {x : J} {l : List String} {xs : List J} :
+      parsePrim t v = .val x → ItemsParse t l xs → ItemsParse t (v :: l) (x :: xs)
+
+/-- every item parses: the array of the parsed items -/
+theorem parseArr_vals (s : Sch) (l : List String) (xs : List J)
+    (h : ItemsParse s.core.ty l xs) :
+    parseArr (.some s) l = .val (.arr (JL.ofList xs)) := by
+  induction h with
+  | nil => rfl
+  | cons hv _ ih => unfold parseArr; simp only [hv, ih, consItem, JL.ofList]
+
+/-- the first item that does not parse to a value decides the whole array -/
+theorem parseArr_first_bad (s : Sch) (pre : List String) (xs : List J) (v : String) (post : List String) (d : Dec)
+    (hpre : ItemsParse s.core.ty pre xs)
+    (hv : parsePrim s.core.ty v = d) (hd : ∀ x, d ≠ .val x) :
+    parseArr (.some s) (pre ++ v :: post) = d := by
+  induction hpre with
+  | nil =>
+    simp only [List.nil_append]
+    unfold parseArr
+    cases d with
+    | val x => exact absurd rfl (hd x)
+    | err => simp [hv]
+    | nil => simp [hv]
+    | panic => simp [hv]
+  | cons hu _ ih =>
+    simp only [List.cons_append]
+    unfold parseArr
+    simp only [hu, ih]
+    exact consItem_of_not_val _ d hd
+
 /-! ### lists, selection -/
 
 theorem firstSome_statusKeys (m : List (String × α)) (status : Int) :
@@ -265,14 +389,67 @@ theorem skipStatus_iff (st : Int) :
   · rintro (((h | h) | h) | h) <;> simp [h]
   · rintro (h | h | h | h) <;> simp [h]
 
+/-! ### the header loop runs in sorted order -/
+
+theorem insertHdr_sorted (x : Hdr) (l : List Hdr) (h : l.Pairwise (fun a b => a.name ≤ b.name)) :
+    (insertHdr x l).Pairwise (fun a b => a.name ≤ b.name) := by
+  induction l with
+  | nil => simp [insertHdr]
+  | cons y ys ih =>
+    rw [List.pairwise_cons] at h
+    unfold insertHdr
+    split
+    · rename_i hxy
+      rw [List.pairwise_cons]
+      refine ⟨?_, List.pairwise_cons.mpr h⟩
+      intro z hz
+      rcases List.mem_cons.mp hz with rfl | hz
+      · exact hxy
+      · exact String.le_trans hxy (h.1 z hz)
+    · rename_i hxy
+      rw [List.pairwise_cons]
+      refine ⟨?_, ih h.2⟩
+      intro z hz
+      rcases (mem_insertHdr x z ys).mp hz with rfl | hz
+      · rcases String.le_total z.name y.name with h' | h'
+        · exact absurd h' hxy
+        · exact h'
+      · exact h.1 z hz
+
+theorem sortHdrs_sorted (l : List Hdr) : (sortHdrs l).Pairwise (fun a b => a.name ≤ b.name) := by
+  unfold sortHdrs
+  induction l with
+  | nil => simp
+  | cons x xs ih => exact insertHdr_sorted x _ ih
+
+theorem firstErr_some_split (f : Hdr → Option Err) (l : List Hdr) (e : Err) (h : firstErr f l = some e) :
+    ∃ pre x post, l = pre ++ x :: post ∧ (∀ y, y ∈ pre → f y = none) ∧ f x = some e := by
+  induction l with
+  | nil => simp [firstErr] at h
+  | cons y ys ih =>
+    unfold firstErr at h
+    cases hy : f y with
+    | some e' =>
+      simp [hy] at h
+      exact ⟨[], y, ys, rfl, by simp, by rw [hy, h]⟩
+    | none =>
+      simp [hy] at h
+      obtain ⟨pre, x, post, hl, hp, hx⟩ := ih h
+      refine ⟨y :: pre, x, post, by simp [hl], ?_, hx⟩
+      intro z hz
+      rcases List.mem_cons.mp hz with rfl | hz
+      · exact hy
+      · exact hp z hz
+
 /-! ### one header, the body -/
 
 theorem checkHeader_iff (canon : String → String) (w : Bool) (hdrs : List (String × String)) (h : Hdr)
-    (h1 : hdrDecodedNil canon hdrs h = false) (h2 : hdrWriteOnly canon hdrs h = false) :
+    (h1 : hdrDecodedNil canon hdrs h = false) (h2 : hdrArrayNoItems canon hdrs h = false) :
     checkHeader canon w hdrs h = none ↔ HeaderOK canon w hdrs h := by
-  unfold checkHeader HeaderOK hdrDecodedNil at *
-  unfold hdrWriteOnly at h2
-  unfold present at *
+  unfold checkHeader HeaderOK
+  unfold hdrDecodedNil hdrDec at h1
+  unfold hdrArrayNoItems hdrDec at h2
+  unfold present
   cases hl : lookup (canon h.name) hdrs with
   | none =>
     cases hs : h.schema <;> cases hr : h.required <;> simp
@@ -280,23 +457,23 @@ theorem checkHeader_iff (canon : String → String) (w : Bool) (hdrs : List (Str
     cases hs : h.schema with
     | none => simp
     | some s =>
-      simp only [hl, hs, Option.isSome_some, Bool.true_and] at h1 h2
-      cases hd : h.dec with
+      simp only [hl, hs] at h1 h2
+      simp only [Option.some.injEq, forall_eq']
+      cases hd : decodeHeader s h.explode raw h.emptyNameDec with
       | err => simp [specValue]
+      | panic => simp [hd] at h2
       | nil => simp [hd] at h1
       | val v =>
-        simp only [hd] at h2
-        have e1 := visit_plain_eq_asrep w v s h2
         have e2 := visit_asrep_eq_satRepB w v s
         have e3 := satRepB_iff w v s
-        simp only [Option.isSome_some, if_true, specValue, Option.some.injEq, forall_eq', exists_eq_left']
-        rw [e1, e2]
+        simp only [specValue, Option.some.injEq, exists_eq_left']
+        rw [e2]
         cases hb : satRepB w v s
         · simp [← e3, hb]
         · simp [← e3, hb]
 
-theorem checkBody_iff (o : Opts) (i : Input) (r : Resp) (he : o.excludeBody = false) :
-    (checkBody o i r).err = none ↔ BodyOK o i r := by
+theorem checkBody_iff (reg : List (String × String)) (o : Opts) (i : Input) (r : Resp) (he : o.excludeBody = false) :
+    (checkBody reg o i r).err = none ↔ BodyOK reg o i r := by
   unfold checkBody BodyOK
   simp only [he, Bool.false_eq_true, if_false]
   cases hc : r.content with
@@ -316,9 +493,10 @@ theorem checkBody_iff (o : Opts) (i : Input) (r : Resp) (he : o.excludeBody = fa
         | true => simp
         | false =>
           simp only [Bool.false_eq_true, if_false, true_and]
-          cases hd : i.bodyDec with
+          cases hd : decodeBody reg i with
           | err => simp
           | nil => simp
+          | panic => simp
           | val v =>
             have e2 := visit_asrep_eq_satRepB o.woOff v s
             have e3 := satRepB_iff o.woOff v s
@@ -339,11 +517,12 @@ theorem headerOKB_iff (canon : String → String) (w : Bool) (hdrs : List (Strin
     | none => simp
     | some s =>
       simp only [Option.some.injEq, forall_eq']
-      cases hv : specValue h.dec raw with
+      cases hv : specValue (decodeHeader s h.explode raw h.emptyNameDec) raw with
       | none => simp
       | some v => simp [satRepB_iff]
 
-theorem bodyOKB_iff (o : Opts) (i : Input) (r : Resp) : bodyOKB o i r = true ↔ BodyOK o i r := by
+theorem bodyOKB_iff (reg : List (String × String)) (o : Opts) (i : Input) (r : Resp) :
+    bodyOKB reg o i r = true ↔ BodyOK reg o i r := by
   unfold bodyOKB BodyOK
   simp only [Bool.or_eq_true, List.isEmpty_iff]
   apply or_congr Iff.rfl
@@ -357,18 +536,19 @@ theorem bodyOKB_iff (o : Opts) (i : Input) (r : Resp) : bodyOKB o i r = true ↔
       cases hr : i.readFails with
       | true => simp
       | false =>
-        cases hd : i.bodyDec with
+        cases hd : decodeBody reg i with
         | err => simp
         | nil => simp
+        | panic => simp
         | val v => simp [satRepB_iff]
 
-theorem validateResponse_selected (canon : String → String) (o : Opts) (i : Input) (r : Resp)
+theorem validateResponse_selected (canon : String → String) (reg : List (String × String)) (o : Opts) (i : Input) (r : Resp)
     (hm : i.method ≠ "HEAD") (hs : skipStatus i.status = false) (he : i.responses.isEmpty = false)
     (hsel : selected i.responses i.status = some r) :
-    validateResponse canon o i =
+    validateResponse canon reg o i =
       match firstErr (checkHeader canon o.woOff i.hdrs) (checkedHeaders r) with
       | some e => ⟨some e, some i.body⟩
-      | none => checkBody o i r := by
+      | none => checkBody reg o i r := by
   unfold validateResponse
   rw [firstSome_statusKeys, hsel]
   simp only [hm, hs, he, if_false, Bool.false_eq_true]
